@@ -159,7 +159,31 @@ class Model:
     def contains(self, ex, container, item, st):
         return None
 
+    def seq_of_tuple(self, ex, t, elem_ty, st):
+        q = V(fresh("tupseq", Ref), SeqT(elem_ty))
+        st.assume(q.term != NONE)
+        st.assume(seq_len(q.term) == len(t.py))
+        for i, x in enumerate(t.py):
+            st.assume(seq_at(q.term, z3.IntVal(i), elem_ty) == ex.coerce(x, elem_ty).term)
+        return q
+
+    def seq_concat(self, ex, a, b, st):
+        ety = a.ty.elem
+        n = V(fresh("concat", Ref), SeqT(ety))
+        la, lb = seq_len(a.term), seq_len(b.term)
+        i = z3.Int("ci")
+        st.assume(n.term != NONE)
+        st.assume(z3.And(la >= 0, lb >= 0, seq_len(n.term) == la + lb))
+        st.assume(z3.ForAll([i], z3.Implies(z3.And(0 <= i, i < la), seq_at(n.term, i, ety) == seq_at(a.term, i, ety))))
+        st.assume(z3.ForAll([i], z3.Implies(z3.And(0 <= i, i < lb), seq_at(n.term, la + i, ety) == seq_at(b.term, i, ety))))
+        return n
+
     def binop(self, ex, op, a, b, st):
+        if isinstance(op, ast.Add) and (isinstance(a.ty, SeqT) or isinstance(b.ty, SeqT)) and (a.ty is TUPLE or b.ty is TUPLE or (isinstance(a.ty, SeqT) and isinstance(b.ty, SeqT))):
+            ety = a.ty.elem if isinstance(a.ty, SeqT) else b.ty.elem
+            aa = a if isinstance(a.ty, SeqT) else self.seq_of_tuple(ex, a, ety, st)
+            bb = b if isinstance(b.ty, SeqT) else self.seq_of_tuple(ex, b, ety, st)
+            return self.seq_concat(ex, aa, bb, st)
         if isinstance(op, ast.BitOr) and isinstance(a.ty, SetT):
             items = None
             if b.ty is PY and isinstance(b.py, tuple) and b.py and b.py[0] == "symset":
@@ -586,6 +610,9 @@ class Model:
         st.assume(o.term != NONE)
         bound = dict(zip(fields, args))
         bound.update(kwargs)
+        for f_, dv in (d.get("_defaults") or {}).items():
+            if f_ not in bound:
+                bound[f_] = const(dv)
         for f_, v in bound.items():
             found = self.find_attr(cname, f_)
             if found is None:
@@ -701,6 +728,9 @@ class Model:
                         st.assume(z3.ForAll([j], z3.Implies(z3.And(0 <= j, j < n), seq_at(q.term, j, STR) == val.term)))
                         self.need_join_ext()
                         return V(fn("str.join", z3.StringSort(), Ref, z3.StringSort())(t, q.term), STR)
+        if name == "join" and len(args) == 1 and args[0].ty is PY and isinstance(args[0].py, tuple) and args[0].py and args[0].py[0] == "genexp":
+            # nested generators / filters: the joined text is left uninterpreted (sound over-approximation)
+            return V(fresh("joined", z3.StringSort()), STR)
         if name == "split" and len(args) == 1 and args[0].ty is STR:
             r = V(fn("str.split", z3.StringSort(), z3.StringSort(), Ref)(t, args[0].term), SeqT(STR))
             st.assume(seq_len(r.term) >= 1)
